@@ -122,7 +122,7 @@ static void checkCase(verif::Run& run, const CaseId& id, const std::string& desc
         if (materialPoint) {
             const Vec3 w1 = angVelInAnc(A.bodyX, u0);
             corrP = w1 % vec3At(qerr0, mpRow0); corrV = w1 % vec3At(uerr0, mpRow0);
-            if (corrP.norm() > 1e-9 || corrV.norm() > 1e-9) run.count(std::string("design-deviation:") + cons::consName(id.cs.type) + "-errors-follow-material-point-not-literal-time-derivative");
+            if (corrP.norm() > 1e-9 || corrV.norm() > 1e-9) run.count(std::string("unspecified:literal-derivative-hierarchy-off-manifold(material-point-formulation):") + cons::consName(id.cs.type));
         }
         // NoSlip1D: the library differentiates the velocities of *fixed* material points; the contact point however moves
         // through both bodies, which adds  [w1 x (vP - vP1) - w0 x (vP - vP0)] . n  to the true time derivative.
